@@ -106,18 +106,31 @@ def minKLoop (less : α → α → Bool) (pop : (α → α → Bool) → List α
       | none => minKLoop less pop k xs h
     else minKLoop less pop k xs h
 
-/-- pops until the heap is empty -/
-def drain (lt : α → α → Bool) (pop : (α → α → Bool) → List α → Option (α × List α)) : Nat → List α → List α
-  | 0, _ => []
-  | fuel + 1, h =>
-    match pop lt h with
-    | none => []
-    | some (m, h') => m :: drain lt pop fuel h'
+/-- the output loop of `MinK`: `for i := len(out) - 1; cond(i); i-- { out[i] = h.Pop() }` from the given
+start index (`cond` = the generated loop condition `minKFillCond`; the `i--` of the `for` clause is
+pinned, `pin_xsort_MinK`). `none` = panic: `h.Pop()` on an empty heap or `out[i]` out of range. -/
+def minKFill (cond : Int → Bool) (lt : α → α → Bool) (pop : (α → α → Bool) → List α → Option (α × List α)) :
+    Nat → Int → List α → List α → Option (List α)
+  | 0, _, _, out => some out
+  | fuel + 1, i, h, out =>
+    if cond i then
+      match pop lt h with
+      | none => none
+      | some (m, h') =>
+        match setI out i m with
+        | none => none
+        | some out' => minKFill cond lt pop fuel (i - 1) h' out'
+    else some out
 
-/-- `xsort.MinK`: the output loop fills `out` from index `len(out)-1` down to `0`. -/
-def minK (less : α → α → Bool) (pop : (α → α → Bool) → List α → Option (α × List α)) (xs : List α) (k : Int) : List α :=
+/-- `xsort.MinK`; `none` = panic. `out := make([]T, h.Len())` (length: the generated `minKOutLen`,
+zero-filled), then the output loop from the generated start index `minKFillFrom (len(out))`. -/
+def minK (zero : α) (less : α → α → Bool) (pop : (α → α → Bool) → List α → Option (α × List α)) (xs : List α) (k : Int) :
+    Option (List α) :=
   let h := minKLoop less pop k xs []
-  (drain (fun a b => if minKReversed then less b a else less a b) pop h.length h).reverse
+  let n := minKOutLen h.length
+  if n < 0 then none else                                     -- make with a negative length
+  minKFill minKFillCond (fun a b => if minKReversed then less b a else less a b) pop (n.toNat + 1) (minKFillFrom n) h
+    (List.replicate n.toNat zero)
 
 /-! ## xmaps: finite maps as association lists with distinct keys, sets as duplicate-free lists -/
 
@@ -133,29 +146,39 @@ def mget [DecidableEq κ] (m : List (κ × ν)) (k : κ) : Option ν :=
   | some p => some p.2
   | none => none
 
+/-! The loop bodies are mirrored by hand and guarded by their generated statement lists (`mapRevBody`,
+`rsBody`, `toIndexBody`, `fkvBody`, `unionBody`, `diffBody`), as in `Model/HelpersMore.lean`: an
+iteration has its effect only if the body is the statement list mirrored here, otherwise it does
+nothing and the `*_spec` theorem stops holding. -/
+
 /-- `xmaps.Reverse` -/
 def mapReverse [DecidableEq κ] [DecidableEq ν] : List (κ × ν) → List (ν × List κ)
   | [] => []
   | (k, v) :: rest =>
     let r := mapReverse rest
-    mput r v (k :: (mget r v).getD [])
+    if mapRevBody = ["result[v] = append(result[v], k)"] then mput r v (k :: (mget r v).getD []) else r
 
 /-- `xmaps.ReverseSingle` (the map is visited in the order of the list) -/
 def mapReverseSingle [DecidableEq κ] [DecidableEq ν] : List (κ × ν) → List (ν × κ) × Bool
   | [] => ([], rsOk0)
   | (k, v) :: rest =>
     let (r, ok) := mapReverseSingle rest
-    (mput r v k, if rsDup (mget r v).isSome then rsDupVal else ok)
+    if rsBody = ["if ok {", "allOk = false", "}", "result[v] = k"] then
+      (mput r v k, if rsDup (mget r v).isSome then rsDupVal else ok)
+    else (r, ok)
 
 /-- `xmaps.ToIndex` -/
 def toIndexFrom [DecidableEq κ] : Nat → List κ → List (κ × Nat) → List (κ × Nat)
   | _, [], m => m
-  | i, k :: ks, m => toIndexFrom (i + 1) ks (mput m k i)
+  | i, k :: ks, m => toIndexFrom (i + 1) ks (if toIndexBody = ["m[keys[i]] = i"] then mput m k i else m)
 
 def toIndex [DecidableEq κ] (keys : List κ) : List (κ × Nat) := toIndexFrom 0 keys []
 
 def fromKVLoop [DecidableEq κ] : List κ → List ν → List (κ × ν) → Bool → List (κ × ν) × Bool
-  | k :: ks, v :: vs, m, ok => fromKVLoop ks vs (mput m k v) (if fkvDup (mget m k).isSome then fkvDupVal else ok)
+  | k :: ks, v :: vs, m, ok =>
+    if fkvBody = ["if ok {", "allOk = false", "}", "m[keys[i]] = values[i]"] then
+      fromKVLoop ks vs (mput m k v) (if fkvDup (mget m k).isSome then fkvDupVal else ok)
+    else fromKVLoop ks vs m ok
   | _, _, m, ok => (m, ok)
 
 /-- `xmaps.FromKeysAndValues`; `none` = panic -/
@@ -164,7 +187,10 @@ def fromKeysAndValues [DecidableEq κ] (keys : List κ) (values : List ν) : Opt
 
 /-- `xmaps.Union` -/
 def setUnion [DecidableEq κ] (sets : List (List κ)) : List κ :=
-  sets.foldl (fun out set => set.foldl (fun out k => if k ∈ out then out else out ++ [k]) out) []
+  sets.foldl (fun out set =>
+    if unionBody = ["for k := range set { out[k] = struct{}{} }"] then
+      set.foldl (fun out k => if k ∈ out then out else out ++ [k]) out
+    else out) []
 
 /-- insertion of a set into a list ordered by size (what `xsort.Slice` by `len` establishes; the
 sort is not stable, which set comes first among equally small ones does not matter) -/
@@ -174,32 +200,70 @@ def insertBySize (s : List κ) : List (List κ) → List (List κ)
 
 def sortBySize (sets : List (List κ)) : List (List κ) := sets.foldr insertBySize []
 
-/-- the inner loop of `Intersection`: the value of `include` after
-`for j := J0; j < len(sets); j++ { if _, ok := sets[j][k]; miss(ok) { include = missVal; break } }`
-(start index, miss guard and both values of `include` are generated; the loop condition, `j++` and
-`break` are pinned by `Proofs/HelpersShapes.lean`) -/
-def interInclude [DecidableEq κ] (k : κ) (sorted : List (List κ)) : Bool :=
-  if (sorted.drop interJ0.toNat).all (fun t => !interMiss (decide (k ∈ t))) then interInclude0 else interMissVal
+/-- the inner loop of `Intersection` / `Intersects`, every piece a generated fact of the function:
+`for j := J0; loop(j, len(sets)); j++ { if _, ok := sets[j][k]; miss(ok) { include = missVal; break } }`
+— `loop` the loop condition, `miss` the miss guard, `missVal` the value stored on a miss, `breaks` = the
+miss branch ends with `break` (else the scan goes on), `incs` = the number of `j++` in the post clause
+(the step). Returns the final value of `include`; `none` = `sets[j]` out of range, or the loop does not
+come to an end within `len(sets) + 1` rounds (no `j++`). -/
+def missScan [DecidableEq κ] (loop : Int → Int → Bool) (miss : Bool → Bool) (missVal breaks : Bool) (incs : Nat)
+    (k : κ) (sets : List (List κ)) : Nat → Int → Bool → Option Bool
+  | 0, _, _ => none
+  | fuel + 1, j, inc =>
+    if loop j sets.length then
+      match getI sets j with
+      | none => none
+      | some t =>
+        if miss (decide (k ∈ t)) then
+          (if breaks then some missVal
+           else missScan loop miss missVal breaks incs k sets fuel (j + (incs : Int)) missVal)
+        else missScan loop miss missVal breaks incs k sets fuel (j + (incs : Int)) inc
+    else some inc
 
-/-- `xmaps.Intersection` -/
-def setIntersection [DecidableEq κ] (sets : List (List κ)) : List κ :=
-  if interEmpty sets.length then [] else
-  match sortBySize sets with
-  | [] => []
-  | s0 :: rest => s0.filter (fun k => interStores (interInclude k (s0 :: rest)))
+/-- `include` for the key `k` of `sets[0]` in `Intersection` -/
+def interInclude [DecidableEq κ] (k : κ) (sorted : List (List κ)) : Option Bool :=
+  missScan interLoop interMiss interMissVal interMissBreaks interIncs k sorted (sorted.length + 1) interJ0 interInclude0
 
-/-- the inner loop of `Intersects` (as `interInclude`, from the facts of `Intersects`) -/
-def intsInclude [DecidableEq κ] (k : κ) (sorted : List (List κ)) : Bool :=
-  if (sorted.drop intsJ0.toNat).all (fun t => !intsMiss (decide (k ∈ t))) then intsInclude0 else intsMissVal
+/-- `for k := range sets[0] { …; if include { out[k] = struct{}{} } }` -/
+def interKeys [DecidableEq κ] (sorted : List (List κ)) : List κ → Option (List κ)
+  | [] => some []
+  | k :: ks =>
+    match interInclude k sorted with
+    | none => none
+    | some inc =>
+      match interKeys sorted ks with
+      | none => none
+      | some r => some (if interStores inc then k :: r else r)
 
-/-- `xmaps.Intersects` -/
-def setIntersects [DecidableEq κ] (sets : List (List κ)) : Bool :=
-  if intsEmpty sets.length then intsEmptyRet else
-  match sortBySize sets with
-  | [] => intsEndRet
-  | s0 :: rest => if s0.any (fun k => intsHit (intsInclude k (s0 :: rest))) then intsHitRet else intsEndRet
+/-- `xmaps.Intersection`; `none` = panic. `xsort.Slice(sets, by len)` is applied iff the statement is
+there (`interSortsBySize`). -/
+def setIntersection [DecidableEq κ] (sets : List (List κ)) : Option (List κ) :=
+  if interEmpty sets.length then some [] else
+  match (if interSortsBySize then sortBySize sets else sets) with
+  | [] => some []
+  | s0 :: rest => interKeys (s0 :: rest) s0
+
+/-- `include` for the key `k` of `sets[0]` in `Intersects` (from the facts of `Intersects`) -/
+def intsInclude [DecidableEq κ] (k : κ) (sorted : List (List κ)) : Option Bool :=
+  missScan intsLoop intsMiss intsMissVal intsMissBreaks intsIncs k sorted (sorted.length + 1) intsJ0 intsInclude0
+
+/-- `for k := range sets[0] { …; if include { return true } }; return false` -/
+def intsKeys [DecidableEq κ] (sorted : List (List κ)) : List κ → Option Bool
+  | [] => some intsEndRet
+  | k :: ks =>
+    match intsInclude k sorted with
+    | none => none
+    | some inc => if intsHit inc then some intsHitRet else intsKeys sorted ks
+
+/-- `xmaps.Intersects`; `none` = panic -/
+def setIntersects [DecidableEq κ] (sets : List (List κ)) : Option Bool :=
+  if intsEmpty sets.length then some intsEmptyRet else
+  match (if intsSortsBySize then sortBySize sets else sets) with
+  | [] => some intsEndRet
+  | s0 :: rest => intsKeys (s0 :: rest) s0
 
 /-- `xmaps.Difference` -/
-def setDifference [DecidableEq κ] (a b : List κ) : List κ := a.filter (fun k => diffKeeps (decide (k ∈ b)))
+def setDifference [DecidableEq κ] (a b : List κ) : List κ :=
+  a.filter (fun k => if diffBody = ["if !ok {", "result[k] = struct{}{}", "}"] then diffKeeps (decide (k ∈ b)) else false)
 
 end Juniper.Model.Helpers
